@@ -102,19 +102,18 @@ func (c *bctx) build(n *Node) jen.Code {
 		return jen.Add(c.arg(n, 0)).Values(c.rest(n, 1)...)
 	case "dict":
 		d := jen.Dict{}
-		for _, kv := range n.KV {
+		for pi, kv := range n.KV {
 			k := c.build(kv[0])
-			c.keyIdx++
-			simhook.RegisterKey(k, c.keyIdx)
+			// canonical rank of a key = (Dict id, pair position): the same in every build of the recipe
+			simhook.RegisterKey(k, n.ID*4096+pi)
 			d[k] = c.build(kv[1])
 		}
 		return jen.Add(c.arg(n, 0)).Values(d)
 	case "dictfunc":
 		df := jen.DictFunc(func(d jen.Dict) {
-			for _, kv := range n.KV {
+			for pi, kv := range n.KV {
 				k := c.build(kv[0])
-				c.keyIdx++
-				simhook.RegisterKey(k, c.keyIdx)
+				simhook.RegisterKey(k, n.ID*4096+pi)
 				d[k] = c.build(kv[1])
 			}
 		})
